@@ -49,3 +49,61 @@ Theorem C07_suffix_in_place_refuted :
   In 0 (dirs (srun sst0 (firstn 4 (allocs alloc_ops_inplace 2)))).
 Proof. exact suffix_in_place_refuted. Qed.
 Print Assumptions C07_suffix_in_place_refuted.
+
+(* ---- "queries return no errors or partial garbage" when the query is a PERSISTENT query: every flush appends the
+   block's match bits to <segkey>/pqmr/<pqid>.pqmr AFTER the .sfm (FlushPqmr: blkNum, size, bitset length, bitset
+   words = four write(2) calls, [PqmrWrite] in [ops_of], no effect on what start-up adopts: C07_crash_visible_exact
+   covers histories with [PqWrites] steps), and after a restart the query is answered from that file.
+   FULL STATEMENT, at byte granularity (every system-call boundary and every torn write): whatever prefix of the
+   writer's appends is on disk, ReadPqmr reports exactly the blocks whose record is completely there, each with the
+   bits that were written ... ---- *)
+From SigM Require Import PqmrProto.
+From SigP Require Import PqmrProtoProofs.
+Theorem C07_pqmr_crash_prefix_exact : forall (bl : list (N * bitset)) (k : nat),
+  wf_blocks bl = true -> read_pqmr (firstn k (file_of bl)) = Some (firstn (complete k bl) bl).
+Proof. exact pqmr_crash_prefix_exact. Qed.
+Print Assumptions C07_pqmr_crash_prefix_exact.
+
+(* ... and what the searcher does with it, per block b of a segment with nblocks searchable blocks whose meta records
+   NumBlocks = recorded (Searcher.getBlocks: stored bits for the blocks the file reports; raw search for the others
+   unless the number of blocks taken from the file equals NumBlocks).
+   FULL STATEMENT: forall bl truth k recorded nblocks b, wf_blocks bl = true -> (bits written = truth) ->
+     seg_answer (read_pqmr (firstn k (file_of bl))) recorded nblocks truth b = truth b.
+   It FAILS on the faithful model (and on the code: known finding persistent_query_skips_block_without_match_results):
+   the running .sfm records the INDEX of the last flushed block, so between the .sfm rename of flush b and the end of
+   its pqmr record the file reports b blocks, NumBlocks = b, and block b is not searched at all.
+   Proved: the guarded variant (guard = the exact boolean condition) and the refutation with that crash state. *)
+Theorem C07_pqmr_seg_answer_guarded : forall (bl : list (N * bitset)) (truth : N -> list N) (k : nat) (recorded nblocks : N),
+  wf_blocks bl = true ->
+  (forall b bs, In (b, bs) bl -> set_bits bs = truth b) ->
+  forall b, answer_guard (read_pqmr (firstn k (file_of bl))) recorded nblocks b = true ->
+            seg_answer (read_pqmr (firstn k (file_of bl))) recorded nblocks truth b = truth b.
+Proof. exact pqmr_seg_answer_guarded. Qed.
+Print Assumptions C07_pqmr_seg_answer_guarded.
+
+Theorem C07_pqmr_seg_answer_refuted :
+  let bl := [(0, (1, [1])); (1, (2, [2]))]%N in
+  let truth := fun b : N => if N.eqb b 0 then [0%N] else [1%N] in
+  wf_blocks bl = true /\
+  (forall b bs, In (b, bs) bl -> set_bits bs = truth b) /\
+  seg_answer (read_pqmr (firstn 20 (file_of bl))) 1%N 2%N truth 1%N = [] /\ truth 1%N = [1%N] /\
+  answer_guard (read_pqmr (file_of bl)) 1%N 2%N 1%N = true /\
+  answer_guard (read_pqmr (firstn 20 (file_of bl))) 2%N 2%N 1%N = true.
+Proof. exact pqmr_seg_answer_refuted. Qed.
+Print Assumptions C07_pqmr_seg_answer_refuted.
+
+(* the file without a crash reads back as written *)
+Theorem C07_pqmr_roundtrip : forall bl, wf_blocks bl = true -> read_pqmr (file_of bl) = Some bl.
+Proof. exact pqmr_roundtrip. Qed.
+Print Assumptions C07_pqmr_roundtrip.
+
+(* The break on a short ReadAt is what carries the prefix theorem: a reader that goes on after a short read of the
+   bitset parses the bytes the reused buffer still holds and reports the torn block with the PREVIOUS block's bits. *)
+Theorem C07_pqmr_tolerant_reader_refuted :
+  let bl := [(0, (1, [1])); (1, (2, [2]))]%N in
+  wf_blocks bl = true /\
+  option_map (lookup_last 1%N) (read_pqmr (firstn 24 (file_of bl))) = Some None /\
+  option_map (fun l => option_map set_bits (lookup_last 1%N l)) (read_pqmr_tolerant (firstn 24 (file_of bl))) = Some (Some [0%N]) /\
+  option_map set_bits (lookup_last 1%N bl) = Some [1%N].
+Proof. exact pqmr_tolerant_reader_refuted. Qed.
+Print Assumptions C07_pqmr_tolerant_reader_refuted.
